@@ -15,6 +15,7 @@ pub mod heap {
     pub use crate::util::heap::layout::{
         Mmapper, VMMap, VERIF_MMAPPER_FACTORY, VERIF_VM_MAP_FACTORY,
     };
+    pub use crate::mmtk::{MMAPPER, VM_MAP};
     pub use crate::util::heap::space_descriptor::SpaceDescriptor;
 }
 
